@@ -173,7 +173,7 @@ PROPS = {
             "topk/bottomk/sort only appear as the outermost operator (with ties several answers are valid)",
             "no NaN inputs to aggregations; population variance; float tolerance 1e-9 relative",
         ],
-        "quick": [rapid("TestC11", 1200)],
+        "quick": [rapid("TestC11", 2500)],
         "thorough": [rapid("TestC11", 60000, shards=16, timeout=3000)],
     },
     "C09": {
